@@ -61,6 +61,13 @@ struct qs_domain {
 	qs_domain()
 	: _qs_counter{1}, _desired_qs_counter{0}, _num_agents{0}, _agents_to_ack{0} { }
 
+#ifdef FRG_VERIF_HOOKS
+	// Verification only: a domain whose QS counter starts at first_counter
+	// (e.g., just below 2^32), as if that many grace periods had already passed.
+	explicit qs_domain(uint64_t first_counter)
+	: _qs_counter{first_counter}, _desired_qs_counter{0}, _num_agents{0}, _agents_to_ack{0} { }
+#endif
+
 private:
 	M _mutex;
 
